@@ -78,3 +78,8 @@ type (
 )
 
 func NewCond(l Locker) *Cond { return sync.NewCond(l) }
+
+// OnceFunc, OnceValue and OnceValues are passed through.
+func OnceFunc(f func()) func()                                   { return sync.OnceFunc(f) }
+func OnceValue[T any](f func() T) func() T                       { return sync.OnceValue(f) }
+func OnceValues[T1, T2 any](f func() (T1, T2)) func() (T1, T2)   { return sync.OnceValues(f) }
